@@ -15,7 +15,7 @@ for t in $SEED/*_test.go; do
   base=$(basename $t)
   dest=$(grep -oE "[A-Za-z0-9_/.-]*$base" $SEED/notes.md | grep / | grep -v "^/tmp" | head -1)
   dest=${dest#./}
-  if [ -z "$dest" ]; then pk=$(grep -m1 '^package ' $t | awk '{print $2}'); case $pk in compose) dest=compose/$base;; schema) dest=schema/$base;; react) dest=flow/agent/react/$base;; callbacks) dest=internal/callbacks/$base;; *) echo "cannot place $base"; exit 3;; esac; fi
+  if [ -z "$dest" ]; then pk=$(grep -m1 '^package ' $t | awk '{print $2}'); case $pk in compose) dest=compose/$base;; schema) dest=schema/$base;; react) dest=flow/agent/react/$base;; callbacks) dest=internal/callbacks/$base;; serialization) dest=internal/serialization/$base;; *) echo "cannot place $base"; exit 3;; esac; fi
   cp $t $WT/$dest; PKGS+=("./$(dirname $dest)")
   echo "demo $base -> $dest"
 done
